@@ -80,7 +80,19 @@ func LockOp(c ssa.CallInstruction) (kind, class string, base ssa.Value) {
 		return "", "", nil
 	}
 	recv := CallRecv(c)
-	return kind, FieldOf(recv), stripLoads(FieldBase(recv))
+	class = FieldOf(recv)
+	if class == "" {
+		// the mutex is handed to a helper by address (rLockIndex(ctx, &c.mu, &c.index)): a class that stands for
+		// "parameter i"; the caller's analysis puts the class of its argument in (see AnalyzeLocks)
+		if p, ok := recv.(*ssa.Parameter); ok {
+			for i, q := range p.Parent().Params {
+				if q == p {
+					return kind, fmt.Sprintf("$param:%d", i), p
+				}
+			}
+		}
+	}
+	return kind, class, stripLoads(FieldBase(recv))
 }
 
 func stripLoads(v ssa.Value) ssa.Value {
@@ -142,10 +154,33 @@ func AnalyzeLocks(fn *ssa.Function) *FuncLocks {
 								}
 							}
 						}
+						cls := h.Class
+						if strings.HasPrefix(cls, "$param:") {
+							// the helper locked the mutex it was handed: class and owner of the argument
+							var idx int
+							fmt.Sscanf(cls, "$param:%d", &idx)
+							if idx >= len(c.Common().Args) {
+								continue
+							}
+							arg := c.Common().Args[idx]
+							cls = FieldOf(arg)
+							if cls == "" {
+								if fa, ok := arg.(*ssa.FieldAddr); ok {
+									cls = FieldKey(fa)
+								}
+							}
+							if cls == "" {
+								continue
+							}
+							nb = FieldBase(arg)
+							if fa, ok := arg.(*ssa.FieldAddr); ok {
+								nb = fa.X
+							}
+						}
 						st = st.clone()
-						nh := Held{h.Mode, h.Class, nb}
+						nh := Held{h.Mode, cls, nb}
 						st[hkey(nh)] = nh
-						fl.Acquires[h.Class] = true
+						fl.Acquires[cls] = true
 					}
 				}
 			}
